@@ -232,6 +232,14 @@ func (e *Engine) specInfo(fn *ssa.Function) *SpecInfo {
 
 func typeKeyU(t types.Type) string { return typeKey(t.Underlying()) }
 
+// specApp: uninterpreted application of a ghost function (no unfolding).
+func (c *FnCtx) specApp(st *State, fn *ssa.Function, args []*Term) []*Term {
+	saved := c.eng.fuel
+	c.eng.fuel = -1
+	defer func() { c.eng.fuel = saved }()
+	return c.specCall(st, fn, args)
+}
+
 // specCall: application of a recursive ghost function.
 func (c *FnCtx) specCall(st *State, fn *ssa.Function, args []*Term) []*Term {
 	ts := c.eng.ts
@@ -265,12 +273,14 @@ func (c *FnCtx) specCall(st *State, fn *ssa.Function, args []*Term) []*Term {
 	if c.specDepth[fn] < c.eng.fuel && !c.specSeen[key] {
 		c.specSeen[key] = true
 		c.specDepth[fn]++
+		// The definitional instance  f(args) = body(args)  holds on every path: evaluate the body under a neutral
+		// path condition (merges inside are then only guarded by the body's own branch conditions).
 		work := st.clone()
+		work.pc = ts.Bool(true)
 		body := c.inline(work, fn, args, true)
 		c.specDepth[fn]--
 		for i := range out {
-			// definitional instance, valid wherever the call is (guarded by current pc through addFact)
-			c.addFact(st, ts.Eq(out[i], body[i]))
+			c.addFactT(&State{pc: ts.Bool(true)}, out[i], ts.Eq(out[i], body[i]))
 		}
 	}
 	return out
@@ -380,6 +390,14 @@ func (c *FnCtx) staticCall(fr *Frame, st *State, x *ssa.Call, callee *ssa.Functi
 			unsupported("ghost function %s called from real code", callee)
 		}
 		si := c.eng.specInfo(callee)
+		if c.fc != nil {
+			for _, o := range c.fc.Opaque {
+				if o == callee.Name() {
+					c.setResult(fr, x, c.specApp(st, callee, args))
+					return
+				}
+			}
+		}
 		if si.rec {
 			c.setResult(fr, x, c.specCall(st, callee, args))
 			return
